@@ -110,3 +110,67 @@ def bits_pattern_ints(rng, count, bits=256):
 
 def rand_bytes(rng, n):
     return rng.getrandbits(8 * n).to_bytes(n, "big") if n else b""
+
+
+_SMALL_X = None
+
+
+def small_abscissae():
+    """small x with x and x+p both fitting in 32 bytes (coordinates aliased modulo p)"""
+    global _SMALL_X
+    if _SMALL_X is None:
+        _SMALL_X = [x for x in range(1, 60) if secp.SECP.lift_x(x) is not None][:8]
+    return _SMALL_X
+
+
+def sec1_candidates(rng, pt=None, n_random=30):
+    """(class, bytes) public-key buffers around one point: valid forms and every structural way of being malformed.
+    Shared by every property whose subject takes a public key (C02, C08, C14), so a class added here reaches all of
+    them.  The caller decides each buffer with the reference SEC1 decoder; classes are labels only."""
+    P, N = secp.P, secp.N
+    if pt is None:
+        pt = secp.pub(rng.randrange(1, N))
+    c, u = secp.sec1_encode(pt, True), secp.sec1_encode(pt, False)
+    x = pt[0]
+    while secp.SECP.lift_x(x) is not None:
+        x = (x + 1) % P
+    xb, yb = pt[0].to_bytes(32, "big"), pt[1].to_bytes(32, "big")
+    rb_ = bytes(rng.randrange(256) for _ in range(32))
+    cands = [
+        ("valid", c), ("valid", u), ("valid_wrong_parity_prefix", bytes([c[0] ^ 1]) + c[1:]),
+        ("len65_prefix02", b"\x02" + xb + yb), ("len65_prefix02", b"\x03" + xb + b"\x00" * 32), ("len65_prefix02", bytes([c[0]]) + xb + rb_),
+        ("len65_prefix02", bytes([c[0]]) + xb + yb), ("len65_prefix02", bytes([c[0] ^ 1]) + xb + yb),
+        ("len33_prefix04", b"\x04" + xb), ("x_ge_p", b"\x02" + (P + rng.randrange(0, 977)).to_bytes(32, "big")),
+        ("x_ge_p", b"\x04" + (P + 1).to_bytes(32, "big") + yb), ("x_ge_p", b"\x03" + b"\xff" * 32),
+        ("y_ge_p", b"\x04" + xb + (P + rng.randrange(0, 900)).to_bytes(32, "big")),
+        ("offcurve", b"\x02" + x.to_bytes(32, "big")), ("offcurve", b"\x03" + x.to_bytes(32, "big")),
+        ("offcurve", b"\x04" + xb + ((pt[1] + 1) % P).to_bytes(32, "big")), ("offcurve", b"\x04" + yb + xb),
+        ("offcurve", b"\x04" + b"\x00" * 64), ("hybrid", bytes([6 + (pt[1] & 1)]) + xb + yb), ("hybrid", bytes([7 - (pt[1] & 1)]) + xb + yb),
+        ("other_prefix", bytes([rng.choice([0, 1, 5, 8, 0x80, 0xFF])]) + xb), ("other_prefix", bytes([rng.choice([0, 1, 5, 8, 0xFF])]) + xb + yb),
+        ("neg_y_uncompressed", b"\x04" + xb + (P - pt[1]).to_bytes(32, "big")),
+        ("wrong_len", c[:-1]), ("wrong_len", c + b"\x00"), ("wrong_len", u[:-1]), ("wrong_len", u + b"\x00"), ("wrong_len", c[:32]), ("wrong_len", u[:64]),
+        ("wrong_len", b""), ("wrong_len", c[:1]),
+    ]
+    # coordinates aliased modulo p: a small valid abscissa x (x + p still fits in 32 bytes only for x < 2^32 + 977)
+    for sx in small_abscissae():
+        spt = secp.SECP.lift_x(sx)
+        for yy in (spt[1], P - spt[1]):
+            cands.append(("coord_plus_p", b"\x04" + (sx + P).to_bytes(32, "big") + yy.to_bytes(32, "big")))
+        cands.append(("coord_plus_p", b"\x02" + (sx + P).to_bytes(32, "big")))
+        cands.append(("coord_plus_p", b"\x03" + (sx + P).to_bytes(32, "big")))
+        cands.append(("valid_small_x", b"\x04" + sx.to_bytes(32, "big") + spt[1].to_bytes(32, "big")))
+    # off-curve x together with the "pseudo root" (c^((p+1)/4) for a non-residue c): what a decoder that trusts
+    # its own square-root routine without squaring back would accept; and y = 0 / x = 0 corner buffers
+    cnr = (x * x * x + 7) % P
+    pr = pow(cnr, (P + 1) // 4, P)
+    for yy in (pr, P - pr):
+        cands.append(("offcurve_pseudo_root", b"\x04" + x.to_bytes(32, "big") + yy.to_bytes(32, "big")))
+    cands.append(("offcurve", b"\x04" + xb + b"\x00" * 32))
+    cands.append(("offcurve", b"\x02" + b"\x00" * 32))      # x = 0: 7 is a non-residue mod p
+    for _ in range(n_random):
+        ln = rng.choice([33, 65, 33, 65, rng.randrange(0, 71)])
+        b = bytes(rng.randrange(256) for _ in range(ln))
+        if ln in (33, 65) and rng.random() < 0.7:
+            b = bytes([rng.choice([2, 3, 4])]) + b[1:]
+        cands.append(("random", b))
+    return cands
